@@ -341,10 +341,18 @@ func VerifCheck_icase() {
 	// t2[i] is t[i] or its case partner: a fresh variable tied to t[i] by one constraint
 	// (cheaper for the solver than carrying the case map through every class test)
 	t2 := make([]rune, n)
+	flips := 0
+	if n > 0 {
+		flips = verifConcrete(verifInt("flips", 0, (1<<uint(n))-1))
+	}
 	for i := range t {
-		u := verifRune("u" + string(rune('0'+i)))
-		verifAssume(verifOr(u == t[i], unicode.SimpleFold(t[i]) == u))
-		t2[i] = u
+		// bit i of the (case-split) flip vector: t2[i] is the case partner of t[i]. Every condition on t2[i]
+		// is then a condition on the one variable t[i], which the finite-domain filter decides natively.
+		if flips>>uint(i)&1 != 0 {
+			t2[i] = unicode.SimpleFold(t[i])
+		} else {
+			t2[i] = t[i]
+		}
 	}
 	pos := func(m *Match) []int {
 		if m == nil {
